@@ -601,8 +601,9 @@ def run(tier, replay=None):
             world, script = realise(table, last['hist'])
             tr, notes = run_script(world, script)
             cex.append((d, world, script, tr, model_lines(last['out'])))
-        cv, _ = tlc.validate_traces(SPEC, 'RoutingTrace', 'RoutingTrace.cfg', [c[3] for c in cex], shards=1, jvm_opts=js)
-        present = sorted(d for (d, _, _, _, _), (cl, _) in zip(cex, cv) if cl and cl == dev_clause[d])
+        # a tree has the deviation iff it behaves on the counterexample line for line like the deviating model (TLC judges
+        # these traces with all the others below: its verdict must then be the deviation's clause)
+        present = sorted(d for d, _, _, tr, mout in cex if tr['lines'] == mout)
         tick('deviations present in the tree under test: %s' % present)
 
         # 2. every environment history of the small configurations, for the model variant that matches the tree
@@ -671,6 +672,11 @@ def run(tier, replay=None):
     verdicts, stats = tlc.validate_traces(SPEC, 'RoutingTrace', 'RoutingTrace.cfg', [it[2] for it in items],
                                           shards=shards, jvm_opts=js)
     tick('traces judged')
+    for i, (d, _, _, _, _) in enumerate(cex):
+        if (verdicts[i][0] == dev_clause[d]) != (d in present):
+            raise tlc.MachineryError('deviation %s: the tree %s like the deviating model on the counterexample, but TLC says %r '
+                                     'about its trace (the model says %s)' % (d, 'behaves' if d in present else 'does not behave',
+                                                                               verdicts[i][0], dev_clause[d]))
     accepted = []
     nreq = 0
     again = []
